@@ -373,6 +373,17 @@ Theorem C14_nohooks_no_lock_handover :
 Proof. exact nextF_nohooks_wrapper_free. Qed.
 Print Assumptions C14_nohooks_no_lock_handover.
 
+(** ... and over ALL schedules (induction on reachability): when no terminal was found, no
+    thread ever executes the start wrapper and the module global of every running process
+    stays the thread lock of that process — no lock is ever created or handed over *)
+Theorem C14_none_found_handed_nothing :
+  forall fc prog q0 s, found_tty (f_found fc) = false ->
+    reachable_items (stepFound inst_code fc) (initQ prog q0) s ->
+    (forall t, wrapper_free (t_pc (th (qs s) t)) = true)
+    /\ (forall p, started (qs s) p = true -> cur (qs s) p = LT).
+Proof. exact none_found_handed_nothing. Qed.
+Print Assumptions C14_none_found_handed_nothing.
+
 (** the variant that installs the hooks only when the terminal was found through a
     standard stream is refuted: terminal found through the fallback, the parent starts a
     child, parent and child are both inside a synchronized body *)
